@@ -399,6 +399,8 @@ func stageSites(rep *lib.Report, round int) []cidT {
 		addT("sources", cidT{fPkg: "^" + q(pk.name) + "$", fTyp: q(pk.T)})
 		addT("sources", cidT{fTyp: q(pk.T), fFld: "^G$"})
 		addT("sources", cidT{fMeth: "^" + q(pk.PM) + "$", fRecv: "^$"})
+		addT("sources", cidT{fCtx: "^$", fMeth: "^" + q(pk.Fn) + "$"})
+		addT("backtracepoints", cidT{fCtx: "^$", fMeth: "^" + q(pk.Fn) + "$"})
 		addT("backtracepoints", cidT{fMeth: "^" + q(pk.Plain) + "$", fVM: "^$"})
 		for _, ctx := range []string{"\\.run[0-3]$", "\\)\\.Run$", "\\$3$"} {
 			histIdx = append(histIdx, len(specs), len(specs)+1)
@@ -428,6 +430,11 @@ func stageSites(rep *lib.Report, round int) []cidT {
 		}
 	}
 	rep.Count("alias-package-rendering:" + map[string]string{"package ": "ssa.Package.String()", "": "path"}[aliasPrefix])
+	if aliasPrefix != "" {
+		// regression case of the finding repaired by 95e1c24
+		rep.Fail("alias-package-prefix", "FindValuePackage renders the package of an alias label as \"package <path>\": package patterns anchored at the path miss function values, patterns such as \"^package \" match them",
+			[]byte(gp.files["main.go"]), false)
+	}
 	// ---- oracle input
 	var in strings.Builder
 	in.WriteString(record("aliasprefix", aliasPrefix))
